@@ -101,6 +101,14 @@ var fields = map[LT]map[string]fld{
 var setters = map[string]fld{
 	"Bid.Price":                    {"{ %1 with price := %2 }", "Dec"},
 	"Bid.Coin":                     {"{ %1 with denom := (%2).denom, amt := (%2).amt }", "Coin"},
+	"Bid.Id":                       {"{ %1 with id := (%2).toNat }", "Int"},
+	"GenesisG.AllowedBidderList":   {"{ %1 with allowed := %2 }", "List AllowedArg"},
+	"GenesisG.VestingQueueList":    {"{ %1 with vqs := %2 }", "List VQ"},
+	"GenesisG.BidList":             {"{ %1 with bids := %2 }", "List Bid"},
+	"GenesisG.AuctionList":         {"{ %1 with auctions := %2 }", "List Auction"},
+	"GenesisG.Params":              {"{ %1 with params := %2 }", "Params"},
+	"Params.AuctionCreationFee":    {"{ %1 with creationFee := %2 }", "Coins"},
+	"Params.PlaceBidFee":           {"{ %1 with bidFee := %2 }", "Coins"},
 	"Bid.IsMatched":                {"{ %1 with matched := %2 }", "Bool"},
 	"Auction.RemainingSellingCoin": {"{ %1 with remaining := (%2).amt }", "Coin"},
 	"Auction.MatchedPrice":         {"{ %1 with matchedPrice := %2 }", "Dec"},
@@ -243,6 +251,7 @@ var funcs = map[string]fnSpec{
 }
 
 var zeroValues = map[string]V{
+	"error":    {"false", "Err"},
 	"[]string": {"([] : List Acc)", "List Acc"},
 	"math.Int": {"(0 : Int)", "Int"}, // nil Int; every use in the translated code assigns before reading
 	"int64":    {"(0 : Int)", "Int"},
@@ -265,6 +274,7 @@ var composites = map[string]compositeSpec{
 	"VestingQueue": {T: "VQ", Fields: map[string]string{"AuctionId": "auction := (%s).toNat", "Auctioneer": "auctioneer := %s",
 		"PayingCoin": "denom := (%s).denom, amt := (%s).amt", "ReleaseTime": "release := %s", "Released": "released := %s"}},
 	"BidderMatchResult": {T: "BRes", Fields: map[string]string{"PayingAmount": "pay := %s", "MatchedAmount": "matched := %s"}},
+	"Coins":             {T: "Coins", Fields: map[string]string{}},
 	"inOutCoins":        {T: "IOC", Fields: map[string]string{"bidder": "bidder := %s", "outputs": "outputs := %s", "input": "input := %s"}},
 	"LegacyDec":         {T: "Dec", Fields: map[string]string{}},
 	"MatchResult": {T: "MState", Fields: map[string]string{"MatchPrice": "price := %s", "MatchedAmount": "total := %s",
@@ -279,9 +289,12 @@ var ignoredCalls = map[string]bool{}
 var ignoredPrefixes = []string{"telemetry.", "fmt.Print", "log.", "k.Logger", "ctx.Logger", "sdkCtx.Logger", "logger."}
 
 // goTypeNames: Go type expressions (as rendered) -> Lean types, for map literals
-var goTypeNames = map[string]LT{"inOutCoins": "IOC", "string": "Acc", "math.Int": "Int", "*BidderMatchResult": "BRes", "*types.BidderMatchResult": "BRes", "uint64": "Int", "bool": "Bool"}
+var goTypeNames = map[string]LT{"inOutCoins": "IOC", "int64": "Int", "string": "Acc", "math.Int": "Int", "*BidderMatchResult": "BRes", "*types.BidderMatchResult": "BRes", "uint64": "Int", "bool": "Bool"}
 
-var mutatorNames = map[string]bool{"SetMatched": true, "SetReleased": true, "SetStatus": true, "SetEndTimes": true}
+// struct types for which a nil pointer result is rendered as the default value
+var defaultable = map[LT]bool{"GenesisG": true}
+
+var mutatorNames = map[string]bool{"SetId": true, "SetMatched": true, "SetReleased": true, "SetStatus": true, "SetEndTimes": true}
 
 // assertKinds: `x, ok := auction.(*types.T)` succeeds iff the auction is of this kind
 var assertKinds = map[string]string{"BatchAuction": "AType.batch", "FixedPriceAuction": "AType.fixed"}
@@ -290,6 +303,7 @@ var assertKinds = map[string]string{"BatchAuction": "AType.batch", "FixedPriceAu
 var mutators = map[string]fld{
 	"Bid.SetMatched":      {"{ %1 with matched := %2 }", "Bool"},
 	"VQ.SetReleased":      {"{ %1 with released := %2 }", "Bool"},
+	"Auction.SetId":       {"{ %1 with id := (%2).toNat }", "Int"},
 	"Auction.SetStatus":   {"{ %1 with status := %2 }", "Status"},
 	"Auction.SetEndTimes": {"{ %1 with endTimes := %2 }", "List Time"},
 }
